@@ -432,9 +432,10 @@ def replay(w):
 
 COMPILED = ['builtins', '_multibytecodec', 'itertools', '_collections', 'array', 'math', 'zlib', '_struct', 'select', '_thread', '_io', 'unicodedata',
             '_datetime', '_decimal', '_json', '_pickle', '_random', '_bisect', '_heapq', '_csv', 'binascii', '_hashlib', 'pyexpat', '_elementtree', '_sqlite3',
-            '_lzma', '_bz2', 'mmap', 'grp', 'pwd', '_contextvars', '_asyncio', '_queue', '_statistics', '_zoneinfo', '_ctypes', '_opcode', '_uuid', 'atexit',
+            '_lzma', '_bz2', 'mmap', 'grp', 'pwd', '_contextvars', '_asyncio', '_queue', '_statistics', '_zoneinfo', '_opcode', '_uuid', 'atexit',
             'gc', 'marshal', 'posix', 'time', 'sys', '_weakref', '_functools', '_operator', '_abc', '_codecs', '_sre', '_string', '_warnings', 'errno', '_locale',
-            '_blake2', '_sha2', '_md5', '_sha1', '_sha3', '_socket', '_ssl', 'fcntl', 'resource', 'termios', '_posixsubprocess', '_tracemalloc', 'cmath', '_struct']
+            '_blake2', '_sha2', '_md5', '_sha1', '_sha3', 'fcntl', 'resource', 'termios', '_posixsubprocess', '_tracemalloc', 'cmath']
+# not listed on purpose: _ssl (instantiating its classes without arguments segfaults CPython 3.12.1 in this image), _socket, _ctypes
 
 
 def runtime_class_texts():
